@@ -209,6 +209,51 @@ static void renamed_request(int fsm)
                 if (!fits && nhc != 0) viol("C06", "handler-though-text-does-not-fit", "the renamed command's text does not fit but the handler was invoked");
         }
 }
+/* an event whose handler puts the parser on hold while a write line is half received; the hold is released and the rest of the line arrives.  Whatever the
+ * parser makes of the two halves, a write handler may only ever be handed bytes that were sent, in the order they were sent (a contiguous piece of the input) */
+static long trig_at; static bool hold_event_mode; static int hold_event_calls;
+static void on_read_trig(size_t off, uint8_t ch) { (void)ch; if ((long)off == trig_at) (void)cat_trigger_unsolicited_event(W.at, W.cmd[3], chance(50) ? CAT_CMD_TYPE_READ : CAT_CMD_TYPE_TEST); }
+static cat_return_state hold_policy(struct hcall *h)
+{
+        if (hold_event_mode && h->fsm == FSM_U && hold_event_calls++ == 0) return CAT_RETURN_STATE_HOLD;
+        return policy(h);
+}
+static void hold_midline(void)
+{
+        static uint8_t args[600]; size_t n = 0;
+        NOISE_PM = 0;
+        size_t L = 2 + rn((unsigned)(W.capA > 8 ? (W.capA < 500 ? W.capA - 3 : 500) : 4));
+        int target = chance(70) ? 0 : 2;
+        in_reset(); in_puts(target == 0 ? "AT+W=" : "ATD");
+        size_t pre = INLEN;
+        for (size_t i = 0; i < L; i++) args[n++] = (uint8_t)('!' + rn(90));
+        in_put(args, n); in_putc('\n');
+        if (chance(50)) in_puts("AT+W=tail\n");
+        trig_at = (long)pre + (long)rn((unsigned)L);
+        hold_event_mode = true; hold_event_calls = 0; POLICY = hold_policy; ON_READ = on_read_trig;
+        nhc = 0; nvcb = 0; nunits = 0; out_reset(); units_reset();
+        snprintf(note, sizeof note, "write line of %zu argument bytes; an event raised at input offset %ld puts the parser on hold; released after a few calls; capacity %zu", n, trig_at, W.capA);
+        long bound = quiet_bound() + 8 * (long)INLEN, i = 0;
+        for (; i < bound && cat_is_hold(W.at) != CAT_STATUS_HOLD; i++) { (void)svc(); if (case_failed()) goto out; if (INPOS >= INLEN && i > (long)INLEN * 4 + 200) break; }
+        if (cat_is_hold(W.at) == CAT_STATUS_HOLD) {
+                CNT("holds_started_by_an_event_in_the_middle_of_a_write_line");
+                for (unsigned k = rn(6); k > 0; k--) { (void)svc(); if (case_failed()) goto out; }
+                (void)cat_hold_exit(W.at, chance(70) ? CAT_STATUS_OK : CAT_STATUS_ERROR_UNKNOWN_STATE);
+        } else CNT("event_holds_not_reached");
+        ON_READ = NULL;
+        if (run_quiet(bound) < 0) { inconclusive("no quiescence (C15's subject)"); goto out; }
+        for (int k = 0; k < nhc && k < 8; k++) {
+                if (hc[k].kind != K_WRITE) continue;
+                CNT("write_handler_calls_around_an_event_hold");
+                size_t sz = hc[k].size < sizeof hc[0].data ? hc[k].size : sizeof hc[0].data;
+                bool found = sz == 0;
+                for (size_t o = 0; !found && o + sz <= INLEN; o++) if (memcmp(INB + o, hc[k].data, sz) == 0) found = true;
+                if (!found) { char b[200]; fmt_bytes(b, sizeof b, hc[k].data, sz > 40 ? 40 : sz); viol("C06", "args-bytes", "after an event put the parser on hold in the middle of the line, a write handler was handed %zu bytes \"%s\" that do not occur in the input", hc[k].size, b); goto out; }
+                if (!hc[k].nul_ok) { viol("C06", "args-not-terminated", "data[data_size] is not NUL (write handler call after an event hold)"); goto out; }
+        }
+out:
+        hold_event_mode = false; POLICY = policy; ON_READ = NULL;
+}
 struct case_budget chk_budget(const char *tier)
 {
         struct case_budget b = { (128 - 6 + 1) * 2, strcmp(tier, "thorough") == 0 ? 2500000 : 40000 };
@@ -229,5 +274,6 @@ void chk_run_case(uint64_t seed, long c, bool is_sweep)
         for (int kind = K_READ; kind <= K_TEST && !case_failed(); kind += 2)
                 for (int fsm = 0; fsm < 2 && !case_failed(); fsm++) { rt_pair(kind, fsm, 3); if (!case_failed()) rt_pair(kind, fsm, 5); }
         if (!case_failed() && chance(30)) for (int fsm = 0; fsm < 2 && !case_failed(); fsm++) renamed_request(fsm);
+        if (!case_failed() && chance(35)) hold_midline();
 }
 int main(int argc, char **argv) { MY_PROP = "C06"; PROG_NAME = "chk_C06"; return verif_main(argc, argv); }
